@@ -160,3 +160,42 @@ def via(d, route):
     if route == "pickled-emulsion":
         return pickle.loads(pickle.dumps(droplets.Emulsion([d])))[0]
     raise ValueError(route)
+
+
+# --------------------------------------------------------------------------- repository test suite under monitors
+
+
+def suite_shard(prop, tier, seed):
+    """Shard spec: the repository's own tests executed with this property's input-agnostic monitor on."""
+    return {"name": "suite", "kind": "suite", "seed": seed, "tier": tier, "timeout_s": 1500}
+
+
+def run_suite(prop, rec):
+    """Run ``pytest <repo>/tests`` with ``vmon.suite_plugin`` and merge what its recorder observed."""
+    import json
+    import os
+    import subprocess
+    import sys
+    from pathlib import Path
+
+    scratch = Path(os.environ.get("VERIF_SCRATCH") or "/tmp")
+    out = scratch / f"suite_{prop}_{os.getpid()}.json"
+    env = dict(os.environ)
+    env.update({"VMON_SUITE_PROP": prop, "VMON_SUITE_OUT": str(out),
+                "PYTHONPATH": os.pathsep.join([str(core.ROOT), str(core.DEPS), str(core.REPO)])})
+    cmd = [sys.executable, "-m", "pytest", str(core.REPO / "tests"), "-q", "-p", "vmon.suite_plugin", "-p", "no:cacheprovider",
+           "--timeout=900", "-o", "addopts="]
+    try:
+        p = subprocess.run(cmd, cwd=str(core.REPO), env=env, capture_output=True, text=True, timeout=1400)
+        rec.note("suite_returncode", p.returncode)
+        rec.note("suite_summary", (p.stdout.strip().splitlines() or [""])[-1][:200])
+    except subprocess.TimeoutExpired:
+        rec.harness_error("suite run hit its watchdog")
+        return
+    if not out.exists():
+        rec.harness_error("suite run left no recorder dump: " + (p.stdout[-300:] + p.stderr[-300:]))
+        return
+    d = json.loads(out.read_text())
+    z = np.load(str(out) + ".npz")
+    rec.absorb(d, z["nontrivial"], z["trivial"])
+    rec.count("suite_runs")
